@@ -47,6 +47,9 @@ theorem timeval_is_set_ok : IsSetOk timevalIsSet := by
 /-- F30-C17: two unknown local addresses compare equal -/
 theorem addr_equal_unspec_ok : ADDR_EQUAL_UNSPEC = 1 := by decide
 
+/-- F30-C17 (second half): a reply only proves support while a client cookie is in use -/
+theorem validate_learns_only_in_use : learnsWhenCleared = false := by decide
+
 theorem cookie_constants :
     COOKIE_CLIENT_LEN = 8 ∧ COOKIE_SERVER_MAX = 32 ∧ COOKIE_RESEND_MAX = 3 ∧ 0 < COOKIE_REGRESSION_TIMEOUT_MS ∧
     COOKIE_REGRESSION_TIMEOUT_MS ≤ COOKIE_UNSUPPORTED_TIMEOUT_MS ∧
@@ -174,12 +177,12 @@ theorem quiet_step (w : World) (e : Ev) (hw : InUse w.ck) (hl : w.ck.client.leng
     refine ⟨?_, ?_, fun b hb => Or.inl hb⟩
     · rcases hc with hc | ⟨a, r, _, _, _, hc⟩ | ⟨_, hc, _⟩ | ⟨_, hc, _⟩
       · rw [hc]
-      · rw [hc]; unfold learn; simp only []; split <;> rfl
+      · rw [hc, learnG_inUse _ _ _ hw]; exact learn_client _ _ _
       · rw [hc]
       · rw [hc] at hq'; simp at hq'
     · rcases hc with hc | ⟨a, r, _, _, _, hc⟩ | ⟨hs, hc, _⟩ | ⟨_, hc, _⟩
       · rw [hc]; exact hw
-      · rw [hc]; right; exact learn_state _ _ _
+      · rw [hc, learnG_inUse _ _ _ hw]; right; exact learn_state _ _ _
       · rw [hc]; right; exact hs
       · rw [hc] at hq'; simp at hq'
 
@@ -219,18 +222,118 @@ theorem client_cookie_changes_only_for_cause (c : CookieSt) (conn : Conn) (now :
     · right; left; simpa using h2
   · left; exact h1
 
+/-! ## the client cookie is always one the RNG produced -/
+
+/-- the random values drawn by the sends of a history -/
+def freshOf : List Ev → List Bytes
+  | [] => []
+  | .send _ fresh _ :: es => fresh :: freshOf es
+  | _ :: es => freshOf es
+
+/-- `F` covers the client cookie in use and every client part put on the wire so far -/
+def FreshInv (F : List Bytes) (w : World) : Prop :=
+  (InUse w.ck → w.ck.client ∈ F) ∧ ∀ b, some b ∈ w.sent → b.take 8 ∈ F
+
+theorem freshInv_mono (F G : List Bytes) (w : World) (hs : ∀ x ∈ F, x ∈ G) (h : FreshInv F w) : FreshInv G w :=
+  ⟨fun hu => hs _ (h.1 hu), fun b hb => hs _ (h.2 b hb)⟩
+
+theorem fresh_step (F : List Bytes) (w : World) (e : Ev) (hwf : w.ck.Wf) (he : EvOk w e) (h : FreshInv F w) :
+    FreshInv (freshOf [e] ++ F) (stepT w e) := by
+  cases e with
+  | advance us => exact h
+  | send conn fresh req =>
+    simp only [freshOf, List.cons_append, List.nil_append, stepT, step]
+    have hc := applyWith_cases timevalIsSet w.ck conn w.now fresh req
+    simp only [] at hc
+    have hnone : ∀ b, some b ∈ (none :: w.sent) → b.take 8 ∈ fresh :: F := by
+      intro b hb
+      simp only [List.mem_cons] at hb
+      rcases hb with hb | hb
+      · cases hb
+      · exact List.mem_cons_of_mem _ (h.2 b hb)
+    rcases hc with ⟨_, h1, h2⟩ | ⟨_, _, _, h1, h2⟩ | ⟨_, _, _, hq, h1, h2⟩ | ⟨_, _, _, _, h1, h2⟩
+    · rw [h1, h2]; exact ⟨fun hu => List.mem_cons_of_mem _ (h.1 hu), hnone⟩
+    · rw [h1, h2]; exact ⟨fun hu => List.mem_cons_of_mem _ (h.1 hu), hnone⟩
+    · rw [h1, h2, quiet_regress _ _ _ hq]; exact ⟨fun hu => List.mem_cons_of_mem _ (h.1 hu), hnone⟩
+    · have hcl : (applyCore timevalIsSet w.ck conn w.now fresh).client ∈ fresh :: F := by
+        rcases applyCore_client timevalIsSet w.ck conn w.now fresh with hc | ⟨hu, hc⟩
+        · rw [hc]; exact List.mem_cons_self
+        · rw [hc]; exact List.mem_cons_of_mem _ (h.1 hu)
+      have hlen := (wf_applyCore timevalIsSet w.ck conn w.now fresh hwf he.1).client_len
+      rw [h2, h1]
+      refine ⟨fun _ => hcl, ?_⟩
+      intro b hb
+      simp only [cookieOf, List.mem_cons, Option.some.injEq] at hb
+      rcases hb with hb | hb
+      · subst hb
+        have : ((applyCore timevalIsSet w.ck conn w.now fresh).client ++
+                (applyCore timevalIsSet w.ck conn w.now fresh).server).take 8 =
+               (applyCore timevalIsSet w.ck conn w.now fresh).client := by
+          rw [show (8 : Nat) = (applyCore timevalIsSet w.ck conn w.now fresh).client.length from hlen.symm]
+          exact List.take_left' rfl
+        rw [this]; exact hcl
+      · exact List.mem_cons_of_mem _ (h.2 b hb)
+  | recv q rq resp rcode =>
+    simp only [freshOf, List.nil_append, stepT, step]
+    have hc := validate_ck_cases timevalIsSet w.ck q rq resp rcode w.now
+    simp only [] at hc
+    refine ⟨?_, h.2⟩
+    rcases hc with hc | ⟨a, r, _, _, _, hc⟩ | ⟨hs, hc, _⟩ | ⟨_, hc, _⟩
+    · rw [hc]; exact h.1
+    · rw [hc]
+      by_cases hu : InUse w.ck
+      · rw [learnG_inUse _ _ _ hu, learn_client]; exact fun _ => h.1 hu
+      · have : learnG w.ck a r = w.ck := by
+          unfold learnG
+          have h1 : ¬ w.ck.state = .generated := fun hh => hu (Or.inl hh)
+          have h2 : ¬ w.ck.state = .supported := fun hh => hu (Or.inr hh)
+          simp [validate_learns_only_in_use, h1, h2]
+        rw [this]; exact h.1
+    · rw [hc]; exact fun _ => h.1 (Or.inr hs)
+    · rw [hc]; intro hu; rcases hu with hu | hu <;> simp at hu
+
+theorem freshOf_mem (e : Ev) (es : List Ev) (F : List Bytes) (x : Bytes)
+    (hx : x ∈ freshOf es ++ (freshOf [e] ++ F)) : x ∈ freshOf (e :: es) ++ F := by
+  cases e with
+  | advance _ => simpa [freshOf] using hx
+  | recv _ _ _ _ => simpa [freshOf] using hx
+  | send c f r =>
+    simp only [freshOf, List.cons_append, List.nil_append, List.mem_append, List.mem_cons] at hx ⊢
+    rcases hx with hx | hx | hx <;> simp [hx]
+
+theorem fresh_run (es : List Ev) : ∀ (F : List Bytes) (w : World), Inv w → FreshInv F w → TraceOk timevalIsSet w es →
+    FreshInv (freshOf es ++ F) (runT w es) := by
+  induction es with
+  | nil => intro F w _ h _; exact h
+  | cons e es ih =>
+    intro F w hi h ht
+    have h1 := fresh_step F w e hi.wf ht.1 h
+    have h2 := ih _ _ (step_inv timevalIsSet timeval_is_set_ok w e hi ht.1) h1 ht.2
+    exact freshInv_mono _ _ _ (fun x hx => freshOf_mem e es F x hx) h2
+
+/-- **the client cookie is always random.**  In every history every cookie put on the wire starts with 8 bytes that an
+    earlier (or this) send of the history drew from the random number generator — never the all-zero content of a
+    cleared state, never anything derived from a response. -/
+theorem client_cookie_is_fresh (t0 : TimeVal) (h0 : StartOk t0) (es : List Ev)
+    (ht : TraceOk timevalIsSet (World.init t0) es) :
+    ∀ b, some b ∈ (runT (World.init t0) es).sent → b.take 8 ∈ freshOf es := by
+  intro b hb
+  have := fresh_run es [] (World.init t0) (inv_init t0 h0)
+    ⟨by intro hu; rcases hu with hu | hu <;> simp [World.init, CookieSt.cleared] at hu, by simp [World.init]⟩ ht
+  simpa using this.2 b hb
+
 /-! ## the latest server cookie is echoed -/
 
 /-- a response with a valid server cookie for the *current* client cookie is remembered (and proves support) -/
-theorem server_cookie_saved (c : CookieSt) (q : QState) (rq r : Bytes) (rcode : Nat) (now : TimeVal)
+theorem server_cookie_saved (c : CookieSt) (q : QState) (rq r : Bytes) (rcode : Nat) (now : TimeVal) (hu : InUse c)
     (hv : validFor (some rq) (some r) = true) (hc : rq.take 8 = c.client) :
     (validate c q (some rq) (some r) rcode now).ck.server = r.drop 8 ∧
     (validate c q (some rq) (some r) rcode now).ck.state = .supported ∧
     (validate c q (some rq) (some r) rcode now).ck.client = c.client := by
   simp only [validFor, Bool.and_eq_true, decide_eq_true_eq, beq_iff_eq] at hv
   obtain ⟨⟨h1, h2⟩, hp⟩ := hv
-  have hl : learn c rq r = { c with state := .supported, unsupportedTs := .zero, server := r.drop 8 } := by
-    unfold learn; simp [COOKIE_CLIENT_LEN, hc]
+  have hl : learnG c rq r = { c with state := .supported, unsupportedTs := .zero, server := r.drop 8 } := by
+    rw [learnG_inUse _ _ _ hu]; unfold learn; simp [COOKIE_CLIENT_LEN, hc]
   unfold validate
   by_cases hr : rcode = RCODE_BADCOOKIE
   · subst hr; rw [validate_server_badcookie _ _ _ _ _ _ h1 h2 hp, hl]; exact ⟨rfl, rfl, rfl⟩
@@ -278,7 +381,7 @@ theorem echo_step (w : World) (e : Ev) (hs : w.ck.state = .supported) (hq : Echo
     simp only [] at hc
     rcases hc with hc | ⟨a, r, ha, hr, hv, hc⟩ | ⟨_, hc, _⟩ | ⟨hg, _, _⟩
     · rw [hc]; exact ⟨rfl, hs⟩
-    · rw [hc]
+    · rw [hc, learnG_inUse _ _ _ (Or.inr hs)]
       refine ⟨?_, learn_state _ _ _⟩
       unfold learn; simp only []
       split
@@ -311,7 +414,7 @@ theorem echoQuietRun_quietRun (es : List Ev) : ∀ w, EchoQuietRun w es → Quie
     client cookie currently in use.  After *any* further sequence of events without reset, source-address change,
     rotation or a newer server cookie, the next UDP request with EDNS leaves with exactly `client ++ s`. -/
 theorem echo_latest_server_cookie (w : World) (q : QState) (rq r : Bytes) (rcode : Nat) (es : List Ev)
-    (hl : w.ck.client.length = 8)
+    (hl : w.ck.client.length = 8) (hu : InUse w.ck)
     (hv : validFor (some rq) (some r) = true) (hc : rq.take 8 = w.ck.client)
     (hq : EchoQuietRun (stepT w (.recv q (some rq) (some r) rcode)) es)
     (conn : Conn) (fresh : Bytes) (x : Option Bytes) (ht : conn.tcp = false)
@@ -320,7 +423,7 @@ theorem echo_latest_server_cookie (w : World) (q : QState) (rq r : Bytes) (rcode
     let w' := runT (stepT w (.recv q (some rq) (some r) rcode)) es
     (apply w'.ck conn w'.now fresh (some x)).req = some (some (w.ck.client ++ r.drop 8)) := by
   intro w'
-  obtain ⟨s1, s2, s3⟩ := server_cookie_saved w.ck q rq r rcode w.now hv hc
+  obtain ⟨s1, s2, s3⟩ := server_cookie_saved w.ck q rq r rcode w.now hu hv hc
   have e1 : (stepT w (.recv q (some rq) (some r) rcode)).ck = (validate w.ck q (some rq) (some r) rcode w.now).ck := rfl
   obtain ⟨r1, _⟩ := echo_run es _ (by rw [e1]; exact s2) hq
   obtain ⟨c1, _, _⟩ := client_cookie_stable es _ (Or.inr (by rw [e1]; exact s2)) (by rw [e1, s3]; exact hl)
